@@ -116,6 +116,7 @@ type heapDecl struct {
 }
 
 type Enc struct {
+	opaqueActive map[string]int
 	allocOverride string
 	m        *Model
 	top      *ssa.Function
